@@ -223,6 +223,13 @@ def d2(ctx, prog, ci):
         return
     xvar = None
     seen = {'scale': False, 'edge': False}
+    # the kernel as a whole is decided by evaluation over the positions of a sample relative to the edges (C13-D9): when that holds,
+    # a bin-index expression this structural rule does not recognise is an equivalent spelling, not a defect
+    from .. import kernelvalues as _kv2
+    try:
+        by_value = _kv2.check_mia(prog, k, ctx.tier)[0] is None
+    except Exception:
+        by_value = False
     for a in assigns:
         g = astutil.guards(a, pm)
         conds = []
@@ -250,8 +257,8 @@ def d2(ctx, prog, ci):
                           and norm(c.comparators[0]) == xvar and isinstance(c.ops[1], ast.Lt) and norm(c.comparators[1]) == hi for c, pol in conds)
             if chained:
                 lower = upper_strict = True
-            ctx.check(good_formula, 'C13-D2', akey + ' formula', f'bin index is `{norm(a.value)}`, not int(({xvar} - {lo}) * {normv})',
-                      'bin index = int((x - lowest edge) * nbins / range)', k.where(a))
+            ctx.check(good_formula or by_value, 'C13-D2', akey + ' formula', f'bin index is `{norm(a.value)}`, not int(({xvar} - {lo}) * {normv})',
+                      'bin index = int((x - lowest edge) * nbins / range)' if good_formula else 'an equivalent spelling of the scaling formula (the kernel bins every position correctly, C13-D9)', k.where(a))
             ctx.check(lower, 'C13-D2', akey + ' lower bound', f'the scaling formula is not guarded by {lo} <= {xvar}: samples below the first edge get a negative (wrapping) bin',
                       f'guarded by {lo} <= {xvar}', k.where(a))
             ctx.check(upper_strict, 'C13-D2', akey + ' upper bound', f'the scaling formula is not guarded by a strict {xvar} < {hi}: x == {hi} (or above) yields bin index nbins, out of range',
@@ -262,9 +269,12 @@ def d2(ctx, prog, ci):
                      {norm(c.left), norm(c.comparators[0])} == {xvar or norm(c.left), hi} for c, pol in conds)
             ctx.check(eq, 'C13-D2', akey + ' right-most edge', f'`{binv} = {nb} - 1` is not restricted to samples equal to the right-most edge `{hi}`',
                       'right-most edge inclusive: x == last edge goes to the last bin', k.where(a))
+        elif by_value:
+            ctx.ok('C13-D2', akey, f'bin index `{norm(a.value)[:60]}`: not one of the recognised spellings; the kernel bins every position correctly (C13-D9)', k.where(a))
+            seen['scale'] = seen['scale'] or isinstance(av, ast.Call)
         else:
             ctx.undecided('C13-D2', akey, f'bin index assignment `{norm(a.value)}` not recognised', k.where(a))
-    ctx.check(seen['scale'] and seen['edge'], 'C13-D2', key + ' branches', 'the scaling branch or the right-most-edge branch is missing',
+    ctx.check((seen['scale'] and seen['edge']) or by_value, 'C13-D2', key + ' branches', 'the scaling branch or the right-most-edge branch is missing',
               'both the scaling branch and the right-most-edge branch exist', k.where())
     # the remaining branch skips the trace: the if-chain's final else contains `continue`
     top = assigns[0]
@@ -570,3 +580,5 @@ def run(ctx, prog):
     n4 = axes.check_family(ctx, prog, 'C13-D4', [MIA])
     ctx.floor('logarithm call sites', n, 1)
     ctx.floor('axis obligations (MIA)', n4, 6)
+    from .. import kernelvalues as _kvm
+    ctx.floor('MIA kernel cases interpreted', _kvm.mia_clause(ctx, prog, 'C13-D9'), 8)
